@@ -85,14 +85,26 @@ impl RngCore for Infallible<'_> {
 struct TimerScript {
     readings: Vec<u64>,
     pos: AtomicUsize,
+    /// readings appended later (`tappend`); consulted once `readings` is used up
+    extra: std::sync::Mutex<Vec<u64>>,
 }
 impl TimerScript {
     fn next(&self) -> u64 {
-        let i = self.pos.fetch_add(1, Ordering::SeqCst);
-        if i >= self.readings.len() {
-            panic_any(Exhausted);
+        let i = self.pos.load(Ordering::SeqCst);
+        if i < self.readings.len() {
+            self.pos.store(i + 1, Ordering::SeqCst);
+            return self.readings[i];
         }
-        self.readings[i]
+        let ex = self.extra.lock().unwrap();
+        let k = i - self.readings.len();
+        if k >= ex.len() {
+            drop(ex);
+            panic_any(Exhausted);         // the failed call does not consume a reading
+        }
+        let v = ex[k];
+        drop(ex);
+        self.pos.store(i + 1, Ordering::SeqCst);
+        v
     }
 }
 
@@ -443,14 +455,36 @@ where
                     other => with_gen!(other, g => format!("{:016x}", g.next_u64()), else "unsupported".into()),
                 }
             }
-            ["fill", s, n] => {
+            ["fill", s, n] | ["fill", s, n, _] => {
                 let (s, n) = match (num(s), num(n)) { (Some(s), Some(n)) => (s, n), _ => return "bad-op".into() };
+                // optional 4th token: offset 0..15 of the destination from a 16-byte aligned address (the result must not
+                // depend on where the caller's buffer lies in memory)
+                let off = if toks.len() == 4 { match num(toks[3]) { Some(o) if o < 16 => o, _ => return "bad-op".into() } } else { 0 };
                 self.ensure(s);
-                // sentinel pattern: fill_bytes must overwrite exactly `n` bytes
-                let mut buf = vec![0xA5u8; n];
-                match &mut self.slots[s] {
-                    Slot::Jit(j, _) => { j.fill_bytes(&mut buf); hex(&buf) }
-                    other => with_gen!(other, g => { g.fill_bytes(&mut buf); hex(&buf) }, else "unsupported".into()),
+                // sentinel pattern: fill_bytes must overwrite exactly `n` bytes and nothing around them
+                let mut store = vec![0xA5A5_A5A5_A5A5_A5A5_A5A5_A5A5_A5A5_A5A5u128; (n + off) / 16 + 2];
+                let all: &mut [u8] = unsafe { std::slice::from_raw_parts_mut(store.as_mut_ptr() as *mut u8, store.len() * 16) };
+                let r = {
+                    let buf = &mut all[off..off + n];
+                    match &mut self.slots[s] {
+                        Slot::Jit(j, _) => { j.fill_bytes(buf); hex(buf) }
+                        other => with_gen!(other, g => { g.fill_bytes(buf); hex(buf) }, else "unsupported".into()),
+                    }
+                };
+                if all[..off].iter().chain(all[off + n..].iter()).any(|&b| b != 0xA5) {
+                    return "wrote-outside-destination".into();
+                }
+                r
+            }
+            ["tappend", t, readings] => {
+                // more readings for an existing scripted timer (a generator may still hold it): lets a history continue after
+                // the timer ran dry in the middle of a call (the closure unwound) — property C16 / C14
+                let t = match num(t) { Some(t) => t, None => return "bad-op".into() };
+                self.ensure(t);
+                let rs: Option<Vec<u64>> = readings.split(',').map(|x| u64::from_str_radix(x, 16).ok()).collect();
+                match (&self.slots[t], rs) {
+                    (Slot::Timer(ts), Some(rs)) => { ts.extra.lock().unwrap().extend(rs); "ok".into() }
+                    _ => "bad-op".into(),
                 }
             }
             ["jump", s] | ["ljump", s] => {
@@ -565,7 +599,7 @@ where
                 };
                 match rs {
                     Some(readings) => {
-                        self.put(d, Slot::Timer(Arc::new(TimerScript { readings, pos: AtomicUsize::new(0) })));
+                        self.put(d, Slot::Timer(Arc::new(TimerScript { readings, pos: AtomicUsize::new(0), extra: std::sync::Mutex::new(vec![]) })));
                         "ok".into()
                     }
                     None => "bad-op".into(),
@@ -655,6 +689,17 @@ where
                 let r: Option<String> = with_kind_plain!(*kind, T => race::<T>(threads, iters, seed));
                 r.unwrap_or_else(|| "unsupported".into())
             }
+            ["core", kind, seed, k, mode] => {
+                // drive the block core directly (BlockRngCore::generate is public API): k blocks from from_seed(seed), each into
+                // a `fresh` (Default) buffer, a `dirty` (all-ones) buffer, or one `same` buffer; prints the last block
+                let (seed, k) = match (unhex(seed), num(k)) { (Some(s), Some(k)) => (s, k), _ => return "bad-op".into() };
+                match *kind {
+                    "Hc128Rng" => core_blocks::<rand_hc::Hc128Core, u32>(&seed, k, mode),
+                    "IsaacRng" => core_blocks::<rand_isaac::isaac::IsaacCore, u32>(&seed, k, mode),
+                    "Isaac64Rng" => core_blocks::<rand_isaac::isaac64::Isaac64Core, u64>(&seed, k, mode),
+                    _ => "unsupported".into(),
+                }
+            }
             ["jitnew"] => {
                 // the std constructor on the real clock: test_timer (or the cached rounds), set_rounds, one collection
                 match JitterRng::new() {
@@ -667,6 +712,36 @@ where
             _ => "bad-op".into(),
         }
     }
+}
+
+trait WordHex: Copy { fn hexw(self) -> String; fn ones() -> Self; }
+impl WordHex for u32 { fn hexw(self) -> String { format!("{:08x}", self) } fn ones() -> Self { u32::MAX } }
+impl WordHex for u64 { fn hexw(self) -> String { format!("{:016x}", self) } fn ones() -> Self { u64::MAX } }
+fn core_blocks<C, W>(seed: &[u8], k: usize, mode: &str) -> String
+where
+    C: BlockRngCore<Item = W> + SeedableRng,
+    C::Results: AsRef<[W]> + AsMut<[W]> + Default,
+    W: WordHex,
+{
+    let mut s = C::Seed::default();
+    if s.as_mut().len() != seed.len() {
+        return "bad-op".into();
+    }
+    s.as_mut().copy_from_slice(seed);
+    let mut core = C::from_seed(s);
+    let mut shared = C::Results::default();
+    let mut last = String::new();
+    for _ in 0..k {
+        let mut fresh = C::Results::default();
+        let buf: &mut C::Results = match mode {
+            "same" => &mut shared,
+            "dirty" => { for w in fresh.as_mut().iter_mut() { *w = W::ones(); } &mut fresh }
+            _ => &mut fresh,
+        };
+        core.generate(buf);
+        last = buf.as_ref().iter().map(|w| w.hexw()).collect::<Vec<_>>().join("");
+    }
+    last
 }
 
 /// deterministic byte source (SplitMix64 stream) behind the infallible interface
@@ -806,11 +881,19 @@ fn rth_gen<F>(s: &Slot<F>) -> Option<Option<Slot<F>>> {
     for_all_gens! {arms}
 }
 
+/// "does this concrete type implement PartialEq, and if so what does == say" — autoref specialisation, so that the harness
+/// compiles whether or not a type has (or later gains) an `==`
+struct EqProbe<'a, T>(&'a T, &'a T);
+trait ProbeHasEq { fn probe_eq(&self) -> Option<bool>; }
+impl<'a, T: PartialEq> ProbeHasEq for EqProbe<'a, T> { fn probe_eq(&self) -> Option<bool> { Some(self.0 == self.1) } }
+trait ProbeNoEq { fn probe_eq(&self) -> Option<bool>; }
+impl<'a, T> ProbeNoEq for &EqProbe<'a, T> { fn probe_eq(&self) -> Option<bool> { None } }
+
 fn eq_slots<F>(a: &Slot<F>, b: &Slot<F>) -> String {
     macro_rules! arms {
         ($($t:ident),*) => {
             match (a, b) {
-                $( (Slot::$t(x), Slot::$t(y)) => match x.eq_(y) {
+                $( (Slot::$t(x), Slot::$t(y)) => match (&EqProbe::<$t>(&**x, &**y)).probe_eq() {
                     Some(r) => r.to_string(),
                     None => "unsupported".into(),
                 }, )*
